@@ -32,6 +32,21 @@ macro("FINV", ["c"],
 
 # FINV(c) as separate clauses (same conjunction; one verification condition per
 # clause keeps every solver query small and its verdict stable under load)
+def FINV1_PARTS():
+    """the conjuncts of FINV1(C_, s) (C_ = the context expression)"""
+    return [
+        "fprog(C_, s).written_examples >= 0 and fprog(C_, s).written_examples == fprog(C_, s).shard.shard_info.number_of_examples"
+        " and fprog(C_, s).written_examples <= C_._examples_per_shard",
+        "fprog(C_, s).shard._shard_writer is not None and fprog(C_, s).shard._shard_writer.nrec == fprog(C_, s).written_examples"
+        " and not fprog(C_, s).shard._shard_writer.closed",
+        "SHARD_OK(fprog(C_, s).shard) and fprog(C_, s).shard._dataset_path == C_._dataset_root_path and not isdisk(fprog(C_, s).shard.shard_info)",
+        "NOT_ON_DISK(C_._dataset_root_path, fprog(C_, s).shard.shard_info)",
+        "forall(lambda t, i: implies(t in C_._shards_lists and 0 <= i and i < len(C_._shards_lists[t].shard_files),"
+        " C_._shards_lists[t].shard_files[i] is not fprog(C_, s).shard.shard_info), t='U')",
+        "implies(fprog(C_, s).written_examples == 0, not truthy(fprog(C_, s).shard.shard_info.custom_metadata))",
+    ]
+
+
 def FINV_PARTS(c):
     P = lambda body: "forall(lambda s: implies(s in %s._current_shards_progress, %s), s='U')" % (c, body.replace("C_", c))
     return [
